@@ -155,7 +155,11 @@ def near(rng, ptype, default, inners, spec):
     d = _copy.deepcopy(default)
     c = rng.randrange(4)
     if isinstance(d, dict):
-        if c == 0 and d:
+        if c == 3 and d:
+            # same size, one key renamed, its value kept ("missing key" versus "key holding None")
+            k = rng.choice(list(d))
+            d[f'{k}_'] = d.pop(k)
+        elif c == 0 and d:
             d.pop(rng.choice(list(d)))
         elif c == 1:
             d['extra'] = lit(rng, 1)
@@ -300,7 +304,8 @@ def run_case(idx, rng, P, rep):
         elif pt == 'List':
             kw['default'] = [] if rng.random() < 0.5 else [lit(rng, 1) for _ in range(rng.randint(1, 3))]
         elif pt == 'Dict':
-            kw['default'] = {} if rng.random() < 0.5 else {k: lit(rng, 1) for k in rng.sample(['k', 'a b', 1, 2.5], rng.randint(1, 3))}
+            kw['default'] = {} if rng.random() < 0.5 else {k: (None if rng.random() < 0.3 else lit(rng, 1))
+                                                            for k in rng.sample(['k', 'a b', 1, 2.5], rng.randint(1, 3))}
         elif pt == 'Parameter':
             kw['default'] = None if rng.random() < 0.6 else lit(rng)
         if kw.get('default'):
